@@ -113,6 +113,12 @@ func runReader(format string, img []byte, want int, c *RCase, limit int, x *sim.
 		case -2:
 			l = rem + 1
 		}
+		if i >= 300_000 && l > 0 && l < 4096 {
+			// a multi-megabyte content under a schedule of tiny reads: after
+			// 300 000 calls the tiny lengths are widened (deterministically, so
+			// the run still replays) instead of issuing millions of calls
+			l = 4096
+		}
 		if cap(buf) < l {
 			buf = make([]byte, l)
 		}
@@ -166,7 +172,8 @@ func runReader(format string, img []byte, want int, c *RCase, limit int, x *sim.
 		if limit > 0 && len(res.Out) > limit {
 			break
 		}
-		if i > 4_000_000 {
+		if i > 4_000_000+4*want {
+			// far more calls than a reader delivering one byte per call needs
 			res.NoProg = true
 			break
 		}
